@@ -101,7 +101,6 @@ func svgRoot(b []byte) bool {
 	}
 }
 
-
 var rePathD = regexp.MustCompile(`<path\b[^>]*?\sd=("[^"]*"|'[^']*')`)
 
 func pathsValid(b []byte) (int, error) {
